@@ -269,6 +269,32 @@ fn direct_calls(t: &mut Tape, out: &mut RunOut) {
         }
         let _ = format!("{} {:?}", scratchstack_aws_signature::KeyTooLongError, scratchstack_aws_signature::KeyTooLongError);
     });
+    let y = match t.below(6) {
+        0 => 10_000,
+        1 => -1,
+        2 => 0,
+        3 => 99_999,
+        4 => t.range(-262_000, 262_000) as i32,
+        _ => 1 + t.below(9999) as i32,
+    };
+    let (mo, d) = (1 + t.below(12) as u32, 1 + t.below(28) as u32);
+    guard(out, "key derivation over the whole calendar", || {
+        use chrono::NaiveDate;
+        use scratchstack_aws_signature::KSecretKey;
+        use std::str::FromStr;
+        let secret: String = s.chars().take(10).collect();
+        let mut dates = vec![NaiveDate::MIN, NaiveDate::MAX];
+        dates.extend(NaiveDate::from_ymd_opt(y, mo, d));
+        if let Ok(k) = KSecretKey::<44>::from_str(&secret) {
+            for d in dates {
+                let kd = k.to_kdate(d);
+                let _ = kd.to_kregion(&s).to_kservice("").to_ksigning();
+                let _ = k.to_kregion(d, "").to_ksigning("service");
+                let _ = k.to_kservice(d, &s, &s);
+                let _ = format!("{:?}", k.to_ksigning(d, "us-east-1", &s));
+            }
+        }
+    });
     guard(out, "prevalidate at the ends of time", || {
         use chrono::{DateTime, Duration, Utc};
         for now in [DateTime::<Utc>::MIN_UTC, DateTime::<Utc>::MAX_UTC, DateTime::<Utc>::UNIX_EPOCH] {
@@ -315,6 +341,7 @@ fn run_c08(t: &mut Tape, _tier: Tier) -> RunOut {
             mix.body_fault_one_in = 10;
             mix.node.odd_scopes = true;
             mix.req.big_body_one_in = 30;
+            mix.req.boundary_form_one_in = 12;
             mix.req.form_focus = t.chance(2);
             let mut j = |cx: &DeliveryCtx, out: &mut RunOut| {
                 out.probe("world_delivery_survived");
@@ -505,6 +532,9 @@ fn account_needles(a: &Account) -> Vec<Needle> {
     if a.secret.len() >= 8 {
         v.extend(needles_for(&format!("AWS4+secret of {}", a.access_key), &pre, false));
     }
+    // the over-long secret a key store may hold for the account (refused by the key type: a secret
+    // all the same)
+    v.extend(needles_for(&format!("over-long stored secret of {}", a.access_key), libi::long_secret_of(a).as_bytes(), true));
     v
 }
 
@@ -697,6 +727,28 @@ fn run_c17(t: &mut Tape, _tier: Tier) -> RunOut {
         if let Some(Ok(s)) = text {
             scan(&mut out, "Debug/Display of key types, provider request/response and their builders", &s, &needles);
             out.probe("key_type_debug_scanned");
+        }
+        // a secret the key type cannot hold is refused, and is a secret all the same: neither the
+        // error nor anything logged on the way may show it
+        let long = libi::long_secret_of(&acct);
+        crate::logger::start_capture();
+        let refused = guard(&mut out, "KSecretKey::from_str of an over-long secret", || {
+            use std::str::FromStr;
+            let a = scratchstack_aws_signature::KSecretKey::<44>::from_str(&long);
+            let b = scratchstack_aws_signature::KSecretKey::<8>::from_str(&long);
+            let c = scratchstack_aws_signature::KSecretKey::<4>::from_str(&secret);
+            format!("{:?}|{:?}|{:?}|{}", a, b.as_ref().err(), c.as_ref().err(), a.as_ref().err().map(|e| e.to_string()).unwrap_or_default())
+        });
+        let recs = crate::logger::take_capture();
+        if let Some(s) = refused {
+            scan(&mut out, "result of KSecretKey::from_str for an over-long secret", &s, &needles);
+            out.probe("overlong_secret_refusal_scanned");
+        }
+        for rec in &recs {
+            if rec.level <= log::Level::Debug {
+                scan(&mut out, &format!("log record at {} (while constructing keys)", rec.level), &rec.text, &needles);
+                out.probe("key_construction_log_scanned");
+            }
         }
         out.deliveries = 1;
         out.nontrivial = true;
@@ -1222,7 +1274,10 @@ fn c19_world(t: &mut Tape, forced: Option<(usize, bool)>) -> RunOut {
         match kind {
             "authorization" => {
                 // the first Authorization header is authenticated
-                let v: Vec<u8> = match t.below(3) {
+                let v: Vec<u8> = match t.below(5) {
+                    // an empty (or blank) header is a header all the same
+                    3 => Vec::new(),
+                    4 => b"  ".to_vec(),
                     0 => b"Basic dXNlcjpwYXNz".to_vec(),
                     1 => format!("AWS4-HMAC-SHA256 Credential={}, SignedHeaders=host, Signature={}", m.auth.credential(), "0".repeat(64)).into_bytes(),
                     _ => b"AWS4-HMAC-SHA256 Credential=AKIDEXAMPLE/20150830/us-east-1/service/aws4_request".to_vec(),
@@ -1239,6 +1294,12 @@ fn c19_world(t: &mut Tape, forced: Option<(usize, bool)>) -> RunOut {
                     "Signature" => "f".repeat(64),
                     _ => "host;x-bogus".to_string(),
                 };
+                // an occurrence with nothing after the '=' is an occurrence all the same
+                let bogus = if t.chance(3) {
+                    String::new()
+                } else {
+                    bogus
+                };
                 m.quirks.dup_header_params.push((name.to_string(), bogus, before));
                 // any number of unknown parameters around them changes nothing
                 m.quirks.header_param_fillers = [0, 0, 3, 6, 9, 14][t.below(6)];
@@ -1253,7 +1314,12 @@ fn c19_world(t: &mut Tape, forced: Option<(usize, bool)>) -> RunOut {
                     } else {
                         pos + 1
                     };
-                    m.logical.headers.insert(ins, ("x-amz-date".into(), bogus_date.clone().into_bytes()));
+                    let v = if t.chance(3) {
+                        Vec::new()
+                    } else {
+                        bogus_date.clone().into_bytes()
+                    };
+                    m.logical.headers.insert(ins, ("x-amz-date".into(), v));
                     accept = Some(!before);
                 }
             }
@@ -1290,7 +1356,12 @@ fn c19_world(t: &mut Tape, forced: Option<(usize, bool)>) -> RunOut {
                     } else {
                         pos + 1
                     };
-                    m.logical.headers.insert(ins, ("x-amz-security-token".into(), b"bogus-token".to_vec()));
+                    let v: &[u8] = if t.chance(3) && m.auth.token.as_deref() != Some("") {
+                        b""
+                    } else {
+                        b"bogus-token"
+                    };
+                    m.logical.headers.insert(ins, ("x-amz-security-token".into(), v.to_vec()));
                     accept = Some(!before);
                 }
             }
@@ -1748,6 +1819,9 @@ fn run_c13(t: &mut Tape, _tier: Tier) -> RunOut {
     let accounts = gen::gen_accounts(t, 2);
     let mut mix = Mix::base();
     mix.req.big_body_one_in = 0;
+    // (forms whose merged target sits on the longest target a URI can hold: what is refused there
+    // is a malformed request — 400 — like any other)
+    mix.req.boundary_form_one_in = 10;
     mix.req.max_pairs = 3;
     mix.req.max_segs = 3;
     mix.req.max_headers = 3;
